@@ -64,5 +64,17 @@ mut("c20-start-exhausted", ["C20"], D, "            return None if a.child_count
 mut("c20-shared-no-advance", ["C20"], D, "            pos += child_a.node_size\n            i += 1\n            continue", "            pos += child_a.node_size\n            continue", "original defect: infinite loop on shared child")
 mut("c20-end-identity-size", ["C20"], D, "        if child_a == child_b:\n            pos_a -= size\n            pos_b -= size\n            continue", "        if child_a == child_b or child_a.eq(child_b) and child_a.is_leaf:\n            pos_a -= size\n            pos_b -= size\n            continue", "control: equivalent shortcut - must NOT be caught", expect="silent")
 
+T = "prosemirror/transform/transform.py"
+AS = "prosemirror/transform/attr_step.py"
+DAS = "prosemirror/transform/doc_attr_step.py"
+mut("c10-append-inplace", ["C10"], F, "            self.content.copy(),\n            0,\n        )", "            self.content,\n            0,\n        )", "Fragment.append extends the receiver's child list in place")
+mut("c10-replace-child-inplace", ["C10"], F, "        copy = self.content.copy()\n        size = self.size + node.node_size - current.node_size", "        copy = self.content\n        size = self.size + node.node_size - current.node_size", "replace_child writes into the shared list")
+mut("c10-add-to-set-inplace", ["C10", "C14"], MK, "        if copy is None:\n            copy = set[:]\n        if not placed:", "        if copy is None:\n            copy = set\n        if not placed:", "appending a mark mutates the caller's set")
+mut("c10-attrstep-shares-attrs", ["C10"], AS, "        attrs = {}\n        for name in node.attrs:\n            attrs[name] = node.attrs[name]\n", "        attrs = node.attrs\n", "AttrStep writes into the old node's attrs dict")
+mut("c10-docattr-shares-attrs", ["C10"], DAS, "        attrs = {}\n        for name in doc.attrs:\n            attrs[name] = doc.attrs[name]\n", "        attrs = doc.attrs\n", "DocAttrStep writes into the old document's attrs dict")
+mut("c10-set-from-sorts-inplace", ["C10", "C14"], MK, "        copy = marks[:]\n        return sorted(copy, key=lambda item: item.type.rank)", "        marks.sort(key=lambda item: item.type.rank)\n        return marks", "set_from sorts the caller's list")
+mut("c10-mapping-copy-shares", ["C10", "C08"], MAP, "            self.maps[:],\n            (self.mirror[:] if self.mirror else None),", "            self.maps,\n            (self.mirror[:] if self.mirror else None),", "a copied Mapping shares its maps list")
+mut("c10-stepmap-invert-shares-then-sorts", ["C10"], MAP, "        return StepMap(self.ranges, not self.inverted)", "        self.inverted = not self.inverted\n        return self", "invert flips the receiver")
+
 json.dump(M, open(os.path.join(os.path.dirname(os.path.abspath(__file__)), "mutations.json"), "w"), indent=1)
 print(len(M), "mutations")
